@@ -327,27 +327,53 @@ package zap
 // Conservation (counting form): every consumed argument position is accounted for by exactly one
 // of: a field in the result, a diagnostic entry, a key/value pair turned into a field by Any
 // (two positions: one field + one Any call), or an invalid pair (two positions).
+// Attribution and order (ghost maps, set where a field is appended): swSrc[j] is the argument position
+// result[j] came from - strictly increasing in j (argument order is kept) - and result[j] is, by the
+// kind of that argument: the typed field itself, unchanged; Error(err) for a bare error, which is the
+// FIRST bare error (the only zap.Error result that is kept); or Any(key, next argument) for a string
+// key (swAny[j] is the index of that Any call). Bare errors after the first are each reported by one
+// "multiple errors" diagnostic, never dropped; nothing else sets the seen-an-error state.
+//@ ghost var swSrc map(int,int)
+//@ ghost var swAny map(int,int)
 //@ func (*zap.SugaredLogger).sweetenFields
 //@   props C14
 //@   flags nopanic propagates-panics
 //@   requires s != nil && s.base != nil && s.base.core != nil && s.base.clock != nil && s.base.addStack != nil && s.base.errorOutput != nil
 //@   requires 0 <= s.base.callerSkip && s.base.callerSkip <= 1 << 20
-//@   modifies $user, comp(E:zapcore.Core), comp(E:uint8), comp(E:uintptr), stacktrace.Formatter.nonEmpty, fields(zapcore.Field), fields(zap.invalidPair)
+//@   modifies $user, comp(E:zapcore.Core), comp(E:uint8), comp(E:uintptr), stacktrace.Formatter.nonEmpty, fields(zapcore.Field), fields(zap.invalidPair), swSrc, swAny
 //@   ensures elems_frame(type(zapcore.Core), zero(type([]zapcore.Core)))
 //@   ensures elems_frame(type(uint8), zero(type([]uint8)))
 //@   track DIAG = call (*zap.Logger).Error
 //@   track ANY = call zap.Any
 //@   track ARR = call zap.Array
+//@   track E = call zap.Error
+//@   ghost-at call 1 of append before swSrc[len(fields)] = i
+//@   ghost-at call 2 of append before swSrc[len(fields)] = i
+//@   ghost-at call 3 of append before swSrc[len(fields)] = i
+//@   ghost-at call 3 of append before swAny[len(fields)] = #ANY - 1
 //@   ensures len(args) == 0 ==> len(result) == 0 && #DIAG == 0
 //@   ensures len(result) <= len(args)
 //@   ensures #ARR <= 1
+//@   ensures forall j int :: 0 <= j && j < len(result) ==> 0 <= swSrc[j] && swSrc[j] < len(args)
+//@   ensures forall j int, k int :: 0 <= j && j < k && k < len(result) ==> swSrc[j] < swSrc[k]
+//@   ensures forall j int :: 0 <= j && j < len(result) && typeof(args[swSrc[j]]) == type(zapcore.Field) ==> result[j] == as(args[swSrc[j]], type(zapcore.Field))
+//@   ensures forall j int :: 0 <= j && j < len(result) && typeof(args[swSrc[j]]) != type(zapcore.Field) && implements(args[swSrc[j]], type(error)) ==> #E >= 1 && result[j] == E.ret0[0] && E.arg0[0] == args[swSrc[j]]
+//@   ensures forall j int :: 0 <= j && j < len(result) && typeof(args[swSrc[j]]) != type(zapcore.Field) && !implements(args[swSrc[j]], type(error)) ==> typeof(args[swSrc[j]]) == type(string) && swSrc[j] + 1 < len(args) && 0 <= swAny[j] && swAny[j] < #ANY && result[j] == ANY.ret0[swAny[j]] && ANY.arg0[swAny[j]] == as(args[swSrc[j]], type(string)) && ANY.arg1[swAny[j]] == args[swSrc[j] + 1]
+//@   ensures #E >= 2 ==> #DIAG >= #E - 1 && (forall k int :: 0 <= k && k < #E - 1 ==> DIAG.arg0[k] == _multipleErrMsg)
 //@   loop 1 invariant 0 <= i && i <= len(args) && len(args) > 0 && s.base == old(s.base) && #ARR == 0
 //@   loop 1 invariant s.base.core != nil && s.base.clock != nil && s.base.addStack != nil && s.base.errorOutput != nil && s.base.callerSkip == old(s.base.callerSkip)
-//@   loop 1 invariant #DIAG >= 0 && #ANY >= 0
+//@   loop 1 invariant #DIAG >= 0 && #ANY >= 0 && #E >= 0
 //@   loop 1 invariant elems_frame(type(zapcore.Core), zero(type([]zapcore.Core)))
 //@   loop 1 invariant elems_frame(type(uint8), zero(type([]uint8)))
 //@   loop 1 invariant i == len(fields) + #DIAG + #ANY + 2 * len(invalid)
 //@   loop 1 invariant seenError ==> len(fields) >= 1
+//@   loop 1 invariant (seenError <==> #E >= 1) && (#E >= 1 ==> #DIAG == #E - 1) && (#E == 0 ==> #DIAG == 0)
+//@   loop 1 invariant forall k int :: 0 <= k && k < #DIAG ==> DIAG.arg0[k] == _multipleErrMsg
+//@   loop 1 invariant forall j int :: 0 <= j && j < len(fields) ==> 0 <= swSrc[j] && swSrc[j] < i
+//@   loop 1 invariant forall j int, k int :: 0 <= j && j < k && k < len(fields) ==> swSrc[j] < swSrc[k]
+//@   loop 1 invariant forall j int :: 0 <= j && j < len(fields) && typeof(args[swSrc[j]]) == type(zapcore.Field) ==> fields[j] == as(args[swSrc[j]], type(zapcore.Field))
+//@   loop 1 invariant forall j int :: 0 <= j && j < len(fields) && typeof(args[swSrc[j]]) != type(zapcore.Field) && implements(args[swSrc[j]], type(error)) ==> #E >= 1 && fields[j] == E.ret0[0] && E.arg0[0] == args[swSrc[j]]
+//@   loop 1 invariant forall j int :: 0 <= j && j < len(fields) && typeof(args[swSrc[j]]) != type(zapcore.Field) && !implements(args[swSrc[j]], type(error)) ==> typeof(args[swSrc[j]]) == type(string) && swSrc[j] + 1 < i && 0 <= swAny[j] && swAny[j] < #ANY && fields[j] == ANY.ret0[swAny[j]] && ANY.arg0[swAny[j]] == as(args[swSrc[j]], type(string)) && ANY.arg1[swAny[j]] == args[swSrc[j] + 1]
 
 // zap.Any: contract generated with the constructors (zz_contracts_c03_verif.go).
 
@@ -382,7 +408,7 @@ package zap
 //@   flags nopanic propagates-panics
 //@   requires s != nil && s.base != nil && s.base.core != nil && s.base.clock != nil && s.base.addStack != nil && s.base.errorOutput != nil
 //@   requires 0 <= s.base.callerSkip && s.base.callerSkip <= 1 << 20
-//@   modifies $user, comp(E:zapcore.Core), comp(E:uint8), comp(E:uintptr), stacktrace.Formatter.nonEmpty, fields(zapcore.Field), fields(zap.invalidPair)
+//@   modifies $user, comp(E:zapcore.Core), comp(E:uint8), comp(E:uintptr), stacktrace.Formatter.nonEmpty, fields(zapcore.Field), fields(zap.invalidPair), swSrc, swAny
 //@   ensures elems_frame(type(zapcore.Core), zero(type([]zapcore.Core)))
 //@   ensures elems_frame(type(uint8), zero(type([]uint8)))
 //@   track GM = call zap.getMessage
@@ -401,7 +427,7 @@ package zap
 //@   flags nopanic propagates-panics
 //@   requires s != nil && s.base != nil && s.base.core != nil && s.base.clock != nil && s.base.addStack != nil && s.base.errorOutput != nil
 //@   requires 0 <= s.base.callerSkip && s.base.callerSkip <= 1 << 20
-//@   modifies $user, comp(E:zapcore.Core), comp(E:uint8), comp(E:uintptr), stacktrace.Formatter.nonEmpty, fields(zapcore.Field), fields(zap.invalidPair)
+//@   modifies $user, comp(E:zapcore.Core), comp(E:uint8), comp(E:uintptr), stacktrace.Formatter.nonEmpty, fields(zapcore.Field), fields(zap.invalidPair), swSrc, swAny
 //@   ensures elems_frame(type(zapcore.Core), zero(type([]zapcore.Core)))
 //@   ensures elems_frame(type(uint8), zero(type([]uint8)))
 //@   track GM = call zap.getMessageln
@@ -418,7 +444,7 @@ package zap
 //@   flags nopanic propagates-panics
 //@   requires s != nil && s.base != nil && s.base.core != nil && s.base.clock != nil && s.base.addStack != nil && s.base.errorOutput != nil
 //@   requires 0 <= s.base.callerSkip && s.base.callerSkip <= 1 << 20
-//@   modifies $user, comp(E:zapcore.Core), comp(E:uint8), comp(E:uintptr), stacktrace.Formatter.nonEmpty, fields(zapcore.Field), fields(zap.invalidPair)
+//@   modifies $user, comp(E:zapcore.Core), comp(E:uint8), comp(E:uintptr), stacktrace.Formatter.nonEmpty, fields(zapcore.Field), fields(zap.invalidPair), swSrc, swAny
 //@   ensures elems_frame(type(zapcore.Core), zero(type([]zapcore.Core)))
 //@   ensures elems_frame(type(uint8), zero(type([]uint8)))
 //@   track L = call (*zap.SugaredLogger).log
@@ -429,7 +455,7 @@ package zap
 //@   flags nopanic propagates-panics
 //@   requires s != nil && s.base != nil && s.base.core != nil && s.base.clock != nil && s.base.addStack != nil && s.base.errorOutput != nil
 //@   requires 0 <= s.base.callerSkip && s.base.callerSkip <= 1 << 20
-//@   modifies $user, comp(E:zapcore.Core), comp(E:uint8), comp(E:uintptr), stacktrace.Formatter.nonEmpty, fields(zapcore.Field), fields(zap.invalidPair)
+//@   modifies $user, comp(E:zapcore.Core), comp(E:uint8), comp(E:uintptr), stacktrace.Formatter.nonEmpty, fields(zapcore.Field), fields(zap.invalidPair), swSrc, swAny
 //@   ensures elems_frame(type(zapcore.Core), zero(type([]zapcore.Core)))
 //@   ensures elems_frame(type(uint8), zero(type([]uint8)))
 //@   track L = call (*zap.SugaredLogger).log
@@ -440,7 +466,7 @@ package zap
 //@   flags nopanic propagates-panics
 //@   requires s != nil && s.base != nil && s.base.core != nil && s.base.clock != nil && s.base.addStack != nil && s.base.errorOutput != nil
 //@   requires 0 <= s.base.callerSkip && s.base.callerSkip <= 1 << 20
-//@   modifies $user, comp(E:zapcore.Core), comp(E:uint8), comp(E:uintptr), stacktrace.Formatter.nonEmpty, fields(zapcore.Field), fields(zap.invalidPair)
+//@   modifies $user, comp(E:zapcore.Core), comp(E:uint8), comp(E:uintptr), stacktrace.Formatter.nonEmpty, fields(zapcore.Field), fields(zap.invalidPair), swSrc, swAny
 //@   ensures elems_frame(type(zapcore.Core), zero(type([]zapcore.Core)))
 //@   ensures elems_frame(type(uint8), zero(type([]uint8)))
 //@   track L = call (*zap.SugaredLogger).log
@@ -451,7 +477,7 @@ package zap
 //@   flags nopanic propagates-panics
 //@   requires s != nil && s.base != nil && s.base.core != nil && s.base.clock != nil && s.base.addStack != nil && s.base.errorOutput != nil
 //@   requires 0 <= s.base.callerSkip && s.base.callerSkip <= 1 << 20
-//@   modifies $user, comp(E:zapcore.Core), comp(E:uint8), comp(E:uintptr), stacktrace.Formatter.nonEmpty, fields(zapcore.Field), fields(zap.invalidPair)
+//@   modifies $user, comp(E:zapcore.Core), comp(E:uint8), comp(E:uintptr), stacktrace.Formatter.nonEmpty, fields(zapcore.Field), fields(zap.invalidPair), swSrc, swAny
 //@   ensures elems_frame(type(zapcore.Core), zero(type([]zapcore.Core)))
 //@   ensures elems_frame(type(uint8), zero(type([]uint8)))
 //@   track L = call (*zap.SugaredLogger).logln
@@ -462,7 +488,7 @@ package zap
 //@   flags nopanic propagates-panics
 //@   requires s != nil && s.base != nil && s.base.core != nil && s.base.clock != nil && s.base.addStack != nil && s.base.errorOutput != nil
 //@   requires 0 <= s.base.callerSkip && s.base.callerSkip <= 1 << 20
-//@   modifies $user, comp(E:zapcore.Core), comp(E:uint8), comp(E:uintptr), stacktrace.Formatter.nonEmpty, fields(zapcore.Field), fields(zap.invalidPair)
+//@   modifies $user, comp(E:zapcore.Core), comp(E:uint8), comp(E:uintptr), stacktrace.Formatter.nonEmpty, fields(zapcore.Field), fields(zap.invalidPair), swSrc, swAny
 //@   ensures elems_frame(type(zapcore.Core), zero(type([]zapcore.Core)))
 //@   ensures elems_frame(type(uint8), zero(type([]uint8)))
 //@   track L = call (*zap.SugaredLogger).log
@@ -473,7 +499,7 @@ package zap
 //@   flags nopanic propagates-panics
 //@   requires s != nil && s.base != nil && s.base.core != nil && s.base.clock != nil && s.base.addStack != nil && s.base.errorOutput != nil
 //@   requires 0 <= s.base.callerSkip && s.base.callerSkip <= 1 << 20
-//@   modifies $user, comp(E:zapcore.Core), comp(E:uint8), comp(E:uintptr), stacktrace.Formatter.nonEmpty, fields(zapcore.Field), fields(zap.invalidPair)
+//@   modifies $user, comp(E:zapcore.Core), comp(E:uint8), comp(E:uintptr), stacktrace.Formatter.nonEmpty, fields(zapcore.Field), fields(zap.invalidPair), swSrc, swAny
 //@   ensures elems_frame(type(zapcore.Core), zero(type([]zapcore.Core)))
 //@   ensures elems_frame(type(uint8), zero(type([]uint8)))
 //@   track L = call (*zap.SugaredLogger).log
@@ -484,7 +510,7 @@ package zap
 //@   flags nopanic propagates-panics
 //@   requires s != nil && s.base != nil && s.base.core != nil && s.base.clock != nil && s.base.addStack != nil && s.base.errorOutput != nil
 //@   requires 0 <= s.base.callerSkip && s.base.callerSkip <= 1 << 20
-//@   modifies $user, comp(E:zapcore.Core), comp(E:uint8), comp(E:uintptr), stacktrace.Formatter.nonEmpty, fields(zapcore.Field), fields(zap.invalidPair)
+//@   modifies $user, comp(E:zapcore.Core), comp(E:uint8), comp(E:uintptr), stacktrace.Formatter.nonEmpty, fields(zapcore.Field), fields(zap.invalidPair), swSrc, swAny
 //@   ensures elems_frame(type(zapcore.Core), zero(type([]zapcore.Core)))
 //@   ensures elems_frame(type(uint8), zero(type([]uint8)))
 //@   track L = call (*zap.SugaredLogger).log
@@ -495,7 +521,7 @@ package zap
 //@   flags nopanic propagates-panics
 //@   requires s != nil && s.base != nil && s.base.core != nil && s.base.clock != nil && s.base.addStack != nil && s.base.errorOutput != nil
 //@   requires 0 <= s.base.callerSkip && s.base.callerSkip <= 1 << 20
-//@   modifies $user, comp(E:zapcore.Core), comp(E:uint8), comp(E:uintptr), stacktrace.Formatter.nonEmpty, fields(zapcore.Field), fields(zap.invalidPair)
+//@   modifies $user, comp(E:zapcore.Core), comp(E:uint8), comp(E:uintptr), stacktrace.Formatter.nonEmpty, fields(zapcore.Field), fields(zap.invalidPair), swSrc, swAny
 //@   ensures elems_frame(type(zapcore.Core), zero(type([]zapcore.Core)))
 //@   ensures elems_frame(type(uint8), zero(type([]uint8)))
 //@   track L = call (*zap.SugaredLogger).logln
@@ -506,7 +532,7 @@ package zap
 //@   flags nopanic propagates-panics
 //@   requires s != nil && s.base != nil && s.base.core != nil && s.base.clock != nil && s.base.addStack != nil && s.base.errorOutput != nil
 //@   requires 0 <= s.base.callerSkip && s.base.callerSkip <= 1 << 20
-//@   modifies $user, comp(E:zapcore.Core), comp(E:uint8), comp(E:uintptr), stacktrace.Formatter.nonEmpty, fields(zapcore.Field), fields(zap.invalidPair)
+//@   modifies $user, comp(E:zapcore.Core), comp(E:uint8), comp(E:uintptr), stacktrace.Formatter.nonEmpty, fields(zapcore.Field), fields(zap.invalidPair), swSrc, swAny
 //@   ensures elems_frame(type(zapcore.Core), zero(type([]zapcore.Core)))
 //@   ensures elems_frame(type(uint8), zero(type([]uint8)))
 //@   track L = call (*zap.SugaredLogger).log
@@ -517,7 +543,7 @@ package zap
 //@   flags nopanic propagates-panics
 //@   requires s != nil && s.base != nil && s.base.core != nil && s.base.clock != nil && s.base.addStack != nil && s.base.errorOutput != nil
 //@   requires 0 <= s.base.callerSkip && s.base.callerSkip <= 1 << 20
-//@   modifies $user, comp(E:zapcore.Core), comp(E:uint8), comp(E:uintptr), stacktrace.Formatter.nonEmpty, fields(zapcore.Field), fields(zap.invalidPair)
+//@   modifies $user, comp(E:zapcore.Core), comp(E:uint8), comp(E:uintptr), stacktrace.Formatter.nonEmpty, fields(zapcore.Field), fields(zap.invalidPair), swSrc, swAny
 //@   ensures elems_frame(type(zapcore.Core), zero(type([]zapcore.Core)))
 //@   ensures elems_frame(type(uint8), zero(type([]uint8)))
 //@   track L = call (*zap.SugaredLogger).log
@@ -528,7 +554,7 @@ package zap
 //@   flags nopanic propagates-panics
 //@   requires s != nil && s.base != nil && s.base.core != nil && s.base.clock != nil && s.base.addStack != nil && s.base.errorOutput != nil
 //@   requires 0 <= s.base.callerSkip && s.base.callerSkip <= 1 << 20
-//@   modifies $user, comp(E:zapcore.Core), comp(E:uint8), comp(E:uintptr), stacktrace.Formatter.nonEmpty, fields(zapcore.Field), fields(zap.invalidPair)
+//@   modifies $user, comp(E:zapcore.Core), comp(E:uint8), comp(E:uintptr), stacktrace.Formatter.nonEmpty, fields(zapcore.Field), fields(zap.invalidPair), swSrc, swAny
 //@   ensures elems_frame(type(zapcore.Core), zero(type([]zapcore.Core)))
 //@   ensures elems_frame(type(uint8), zero(type([]uint8)))
 //@   track L = call (*zap.SugaredLogger).log
@@ -539,7 +565,7 @@ package zap
 //@   flags nopanic propagates-panics
 //@   requires s != nil && s.base != nil && s.base.core != nil && s.base.clock != nil && s.base.addStack != nil && s.base.errorOutput != nil
 //@   requires 0 <= s.base.callerSkip && s.base.callerSkip <= 1 << 20
-//@   modifies $user, comp(E:zapcore.Core), comp(E:uint8), comp(E:uintptr), stacktrace.Formatter.nonEmpty, fields(zapcore.Field), fields(zap.invalidPair)
+//@   modifies $user, comp(E:zapcore.Core), comp(E:uint8), comp(E:uintptr), stacktrace.Formatter.nonEmpty, fields(zapcore.Field), fields(zap.invalidPair), swSrc, swAny
 //@   ensures elems_frame(type(zapcore.Core), zero(type([]zapcore.Core)))
 //@   ensures elems_frame(type(uint8), zero(type([]uint8)))
 //@   track L = call (*zap.SugaredLogger).logln
@@ -550,7 +576,7 @@ package zap
 //@   flags nopanic propagates-panics
 //@   requires s != nil && s.base != nil && s.base.core != nil && s.base.clock != nil && s.base.addStack != nil && s.base.errorOutput != nil
 //@   requires 0 <= s.base.callerSkip && s.base.callerSkip <= 1 << 20
-//@   modifies $user, comp(E:zapcore.Core), comp(E:uint8), comp(E:uintptr), stacktrace.Formatter.nonEmpty, fields(zapcore.Field), fields(zap.invalidPair)
+//@   modifies $user, comp(E:zapcore.Core), comp(E:uint8), comp(E:uintptr), stacktrace.Formatter.nonEmpty, fields(zapcore.Field), fields(zap.invalidPair), swSrc, swAny
 //@   ensures elems_frame(type(zapcore.Core), zero(type([]zapcore.Core)))
 //@   ensures elems_frame(type(uint8), zero(type([]uint8)))
 //@   track L = call (*zap.SugaredLogger).log
@@ -561,7 +587,7 @@ package zap
 //@   flags nopanic propagates-panics
 //@   requires s != nil && s.base != nil && s.base.core != nil && s.base.clock != nil && s.base.addStack != nil && s.base.errorOutput != nil
 //@   requires 0 <= s.base.callerSkip && s.base.callerSkip <= 1 << 20
-//@   modifies $user, comp(E:zapcore.Core), comp(E:uint8), comp(E:uintptr), stacktrace.Formatter.nonEmpty, fields(zapcore.Field), fields(zap.invalidPair)
+//@   modifies $user, comp(E:zapcore.Core), comp(E:uint8), comp(E:uintptr), stacktrace.Formatter.nonEmpty, fields(zapcore.Field), fields(zap.invalidPair), swSrc, swAny
 //@   ensures elems_frame(type(zapcore.Core), zero(type([]zapcore.Core)))
 //@   ensures elems_frame(type(uint8), zero(type([]uint8)))
 //@   track L = call (*zap.SugaredLogger).log
@@ -572,7 +598,7 @@ package zap
 //@   flags nopanic propagates-panics
 //@   requires s != nil && s.base != nil && s.base.core != nil && s.base.clock != nil && s.base.addStack != nil && s.base.errorOutput != nil
 //@   requires 0 <= s.base.callerSkip && s.base.callerSkip <= 1 << 20
-//@   modifies $user, comp(E:zapcore.Core), comp(E:uint8), comp(E:uintptr), stacktrace.Formatter.nonEmpty, fields(zapcore.Field), fields(zap.invalidPair)
+//@   modifies $user, comp(E:zapcore.Core), comp(E:uint8), comp(E:uintptr), stacktrace.Formatter.nonEmpty, fields(zapcore.Field), fields(zap.invalidPair), swSrc, swAny
 //@   ensures elems_frame(type(zapcore.Core), zero(type([]zapcore.Core)))
 //@   ensures elems_frame(type(uint8), zero(type([]uint8)))
 //@   track L = call (*zap.SugaredLogger).log
@@ -583,7 +609,7 @@ package zap
 //@   flags nopanic propagates-panics
 //@   requires s != nil && s.base != nil && s.base.core != nil && s.base.clock != nil && s.base.addStack != nil && s.base.errorOutput != nil
 //@   requires 0 <= s.base.callerSkip && s.base.callerSkip <= 1 << 20
-//@   modifies $user, comp(E:zapcore.Core), comp(E:uint8), comp(E:uintptr), stacktrace.Formatter.nonEmpty, fields(zapcore.Field), fields(zap.invalidPair)
+//@   modifies $user, comp(E:zapcore.Core), comp(E:uint8), comp(E:uintptr), stacktrace.Formatter.nonEmpty, fields(zapcore.Field), fields(zap.invalidPair), swSrc, swAny
 //@   ensures elems_frame(type(zapcore.Core), zero(type([]zapcore.Core)))
 //@   ensures elems_frame(type(uint8), zero(type([]uint8)))
 //@   track L = call (*zap.SugaredLogger).logln
@@ -594,7 +620,7 @@ package zap
 //@   flags nopanic propagates-panics
 //@   requires s != nil && s.base != nil && s.base.core != nil && s.base.clock != nil && s.base.addStack != nil && s.base.errorOutput != nil
 //@   requires 0 <= s.base.callerSkip && s.base.callerSkip <= 1 << 20
-//@   modifies $user, comp(E:zapcore.Core), comp(E:uint8), comp(E:uintptr), stacktrace.Formatter.nonEmpty, fields(zapcore.Field), fields(zap.invalidPair)
+//@   modifies $user, comp(E:zapcore.Core), comp(E:uint8), comp(E:uintptr), stacktrace.Formatter.nonEmpty, fields(zapcore.Field), fields(zap.invalidPair), swSrc, swAny
 //@   ensures elems_frame(type(zapcore.Core), zero(type([]zapcore.Core)))
 //@   ensures elems_frame(type(uint8), zero(type([]uint8)))
 //@   track L = call (*zap.SugaredLogger).log
@@ -605,7 +631,7 @@ package zap
 //@   flags nopanic propagates-panics
 //@   requires s != nil && s.base != nil && s.base.core != nil && s.base.clock != nil && s.base.addStack != nil && s.base.errorOutput != nil
 //@   requires 0 <= s.base.callerSkip && s.base.callerSkip <= 1 << 20
-//@   modifies $user, comp(E:zapcore.Core), comp(E:uint8), comp(E:uintptr), stacktrace.Formatter.nonEmpty, fields(zapcore.Field), fields(zap.invalidPair)
+//@   modifies $user, comp(E:zapcore.Core), comp(E:uint8), comp(E:uintptr), stacktrace.Formatter.nonEmpty, fields(zapcore.Field), fields(zap.invalidPair), swSrc, swAny
 //@   ensures elems_frame(type(zapcore.Core), zero(type([]zapcore.Core)))
 //@   ensures elems_frame(type(uint8), zero(type([]uint8)))
 //@   track L = call (*zap.SugaredLogger).log
@@ -616,7 +642,7 @@ package zap
 //@   flags nopanic propagates-panics
 //@   requires s != nil && s.base != nil && s.base.core != nil && s.base.clock != nil && s.base.addStack != nil && s.base.errorOutput != nil
 //@   requires 0 <= s.base.callerSkip && s.base.callerSkip <= 1 << 20
-//@   modifies $user, comp(E:zapcore.Core), comp(E:uint8), comp(E:uintptr), stacktrace.Formatter.nonEmpty, fields(zapcore.Field), fields(zap.invalidPair)
+//@   modifies $user, comp(E:zapcore.Core), comp(E:uint8), comp(E:uintptr), stacktrace.Formatter.nonEmpty, fields(zapcore.Field), fields(zap.invalidPair), swSrc, swAny
 //@   ensures elems_frame(type(zapcore.Core), zero(type([]zapcore.Core)))
 //@   ensures elems_frame(type(uint8), zero(type([]uint8)))
 //@   track L = call (*zap.SugaredLogger).log
@@ -627,7 +653,7 @@ package zap
 //@   flags nopanic propagates-panics
 //@   requires s != nil && s.base != nil && s.base.core != nil && s.base.clock != nil && s.base.addStack != nil && s.base.errorOutput != nil
 //@   requires 0 <= s.base.callerSkip && s.base.callerSkip <= 1 << 20
-//@   modifies $user, comp(E:zapcore.Core), comp(E:uint8), comp(E:uintptr), stacktrace.Formatter.nonEmpty, fields(zapcore.Field), fields(zap.invalidPair)
+//@   modifies $user, comp(E:zapcore.Core), comp(E:uint8), comp(E:uintptr), stacktrace.Formatter.nonEmpty, fields(zapcore.Field), fields(zap.invalidPair), swSrc, swAny
 //@   ensures elems_frame(type(zapcore.Core), zero(type([]zapcore.Core)))
 //@   ensures elems_frame(type(uint8), zero(type([]uint8)))
 //@   track L = call (*zap.SugaredLogger).logln
@@ -638,7 +664,7 @@ package zap
 //@   flags nopanic propagates-panics
 //@   requires s != nil && s.base != nil && s.base.core != nil && s.base.clock != nil && s.base.addStack != nil && s.base.errorOutput != nil
 //@   requires 0 <= s.base.callerSkip && s.base.callerSkip <= 1 << 20
-//@   modifies $user, comp(E:zapcore.Core), comp(E:uint8), comp(E:uintptr), stacktrace.Formatter.nonEmpty, fields(zapcore.Field), fields(zap.invalidPair)
+//@   modifies $user, comp(E:zapcore.Core), comp(E:uint8), comp(E:uintptr), stacktrace.Formatter.nonEmpty, fields(zapcore.Field), fields(zap.invalidPair), swSrc, swAny
 //@   ensures elems_frame(type(zapcore.Core), zero(type([]zapcore.Core)))
 //@   ensures elems_frame(type(uint8), zero(type([]uint8)))
 //@   track L = call (*zap.SugaredLogger).log
@@ -649,7 +675,7 @@ package zap
 //@   flags nopanic propagates-panics
 //@   requires s != nil && s.base != nil && s.base.core != nil && s.base.clock != nil && s.base.addStack != nil && s.base.errorOutput != nil
 //@   requires 0 <= s.base.callerSkip && s.base.callerSkip <= 1 << 20
-//@   modifies $user, comp(E:zapcore.Core), comp(E:uint8), comp(E:uintptr), stacktrace.Formatter.nonEmpty, fields(zapcore.Field), fields(zap.invalidPair)
+//@   modifies $user, comp(E:zapcore.Core), comp(E:uint8), comp(E:uintptr), stacktrace.Formatter.nonEmpty, fields(zapcore.Field), fields(zap.invalidPair), swSrc, swAny
 //@   ensures elems_frame(type(zapcore.Core), zero(type([]zapcore.Core)))
 //@   ensures elems_frame(type(uint8), zero(type([]uint8)))
 //@   track L = call (*zap.SugaredLogger).log
@@ -660,7 +686,7 @@ package zap
 //@   flags nopanic propagates-panics
 //@   requires s != nil && s.base != nil && s.base.core != nil && s.base.clock != nil && s.base.addStack != nil && s.base.errorOutput != nil
 //@   requires 0 <= s.base.callerSkip && s.base.callerSkip <= 1 << 20
-//@   modifies $user, comp(E:zapcore.Core), comp(E:uint8), comp(E:uintptr), stacktrace.Formatter.nonEmpty, fields(zapcore.Field), fields(zap.invalidPair)
+//@   modifies $user, comp(E:zapcore.Core), comp(E:uint8), comp(E:uintptr), stacktrace.Formatter.nonEmpty, fields(zapcore.Field), fields(zap.invalidPair), swSrc, swAny
 //@   ensures elems_frame(type(zapcore.Core), zero(type([]zapcore.Core)))
 //@   ensures elems_frame(type(uint8), zero(type([]uint8)))
 //@   track L = call (*zap.SugaredLogger).log
@@ -671,7 +697,7 @@ package zap
 //@   flags nopanic propagates-panics
 //@   requires s != nil && s.base != nil && s.base.core != nil && s.base.clock != nil && s.base.addStack != nil && s.base.errorOutput != nil
 //@   requires 0 <= s.base.callerSkip && s.base.callerSkip <= 1 << 20
-//@   modifies $user, comp(E:zapcore.Core), comp(E:uint8), comp(E:uintptr), stacktrace.Formatter.nonEmpty, fields(zapcore.Field), fields(zap.invalidPair)
+//@   modifies $user, comp(E:zapcore.Core), comp(E:uint8), comp(E:uintptr), stacktrace.Formatter.nonEmpty, fields(zapcore.Field), fields(zap.invalidPair), swSrc, swAny
 //@   ensures elems_frame(type(zapcore.Core), zero(type([]zapcore.Core)))
 //@   ensures elems_frame(type(uint8), zero(type([]uint8)))
 //@   track L = call (*zap.SugaredLogger).logln
@@ -682,7 +708,7 @@ package zap
 //@   flags nopanic propagates-panics
 //@   requires s != nil && s.base != nil && s.base.core != nil && s.base.clock != nil && s.base.addStack != nil && s.base.errorOutput != nil
 //@   requires 0 <= s.base.callerSkip && s.base.callerSkip <= 1 << 20
-//@   modifies $user, comp(E:zapcore.Core), comp(E:uint8), comp(E:uintptr), stacktrace.Formatter.nonEmpty, fields(zapcore.Field), fields(zap.invalidPair)
+//@   modifies $user, comp(E:zapcore.Core), comp(E:uint8), comp(E:uintptr), stacktrace.Formatter.nonEmpty, fields(zapcore.Field), fields(zap.invalidPair), swSrc, swAny
 //@   ensures elems_frame(type(zapcore.Core), zero(type([]zapcore.Core)))
 //@   ensures elems_frame(type(uint8), zero(type([]uint8)))
 //@   track L = call (*zap.SugaredLogger).log
@@ -693,7 +719,7 @@ package zap
 //@   flags nopanic propagates-panics
 //@   requires s != nil && s.base != nil && s.base.core != nil && s.base.clock != nil && s.base.addStack != nil && s.base.errorOutput != nil
 //@   requires 0 <= s.base.callerSkip && s.base.callerSkip <= 1 << 20
-//@   modifies $user, comp(E:zapcore.Core), comp(E:uint8), comp(E:uintptr), stacktrace.Formatter.nonEmpty, fields(zapcore.Field), fields(zap.invalidPair)
+//@   modifies $user, comp(E:zapcore.Core), comp(E:uint8), comp(E:uintptr), stacktrace.Formatter.nonEmpty, fields(zapcore.Field), fields(zap.invalidPair), swSrc, swAny
 //@   ensures elems_frame(type(zapcore.Core), zero(type([]zapcore.Core)))
 //@   ensures elems_frame(type(uint8), zero(type([]uint8)))
 //@   track L = call (*zap.SugaredLogger).log
@@ -704,7 +730,7 @@ package zap
 //@   flags nopanic propagates-panics
 //@   requires s != nil && s.base != nil && s.base.core != nil && s.base.clock != nil && s.base.addStack != nil && s.base.errorOutput != nil
 //@   requires 0 <= s.base.callerSkip && s.base.callerSkip <= 1 << 20
-//@   modifies $user, comp(E:zapcore.Core), comp(E:uint8), comp(E:uintptr), stacktrace.Formatter.nonEmpty, fields(zapcore.Field), fields(zap.invalidPair)
+//@   modifies $user, comp(E:zapcore.Core), comp(E:uint8), comp(E:uintptr), stacktrace.Formatter.nonEmpty, fields(zapcore.Field), fields(zap.invalidPair), swSrc, swAny
 //@   ensures elems_frame(type(zapcore.Core), zero(type([]zapcore.Core)))
 //@   ensures elems_frame(type(uint8), zero(type([]uint8)))
 //@   track L = call (*zap.SugaredLogger).log
@@ -715,7 +741,7 @@ package zap
 //@   flags nopanic propagates-panics
 //@   requires s != nil && s.base != nil && s.base.core != nil && s.base.clock != nil && s.base.addStack != nil && s.base.errorOutput != nil
 //@   requires 0 <= s.base.callerSkip && s.base.callerSkip <= 1 << 20
-//@   modifies $user, comp(E:zapcore.Core), comp(E:uint8), comp(E:uintptr), stacktrace.Formatter.nonEmpty, fields(zapcore.Field), fields(zap.invalidPair)
+//@   modifies $user, comp(E:zapcore.Core), comp(E:uint8), comp(E:uintptr), stacktrace.Formatter.nonEmpty, fields(zapcore.Field), fields(zap.invalidPair), swSrc, swAny
 //@   ensures elems_frame(type(zapcore.Core), zero(type([]zapcore.Core)))
 //@   ensures elems_frame(type(uint8), zero(type([]uint8)))
 //@   track L = call (*zap.SugaredLogger).logln
@@ -726,7 +752,7 @@ package zap
 //@   flags nopanic propagates-panics
 //@   requires s != nil && s.base != nil && s.base.core != nil && s.base.clock != nil && s.base.addStack != nil && s.base.errorOutput != nil
 //@   requires 0 <= s.base.callerSkip && s.base.callerSkip <= 1 << 20
-//@   modifies $user, comp(E:zapcore.Core), comp(E:uint8), comp(E:uintptr), stacktrace.Formatter.nonEmpty, fields(zapcore.Field), fields(zap.invalidPair)
+//@   modifies $user, comp(E:zapcore.Core), comp(E:uint8), comp(E:uintptr), stacktrace.Formatter.nonEmpty, fields(zapcore.Field), fields(zap.invalidPair), swSrc, swAny
 //@   ensures elems_frame(type(zapcore.Core), zero(type([]zapcore.Core)))
 //@   ensures elems_frame(type(uint8), zero(type([]uint8)))
 //@   track L = call (*zap.SugaredLogger).log
@@ -737,7 +763,7 @@ package zap
 //@   flags nopanic propagates-panics
 //@   requires s != nil && s.base != nil && s.base.core != nil && s.base.clock != nil && s.base.addStack != nil && s.base.errorOutput != nil
 //@   requires 0 <= s.base.callerSkip && s.base.callerSkip <= 1 << 20
-//@   modifies $user, comp(E:zapcore.Core), comp(E:uint8), comp(E:uintptr), stacktrace.Formatter.nonEmpty, fields(zapcore.Field), fields(zap.invalidPair)
+//@   modifies $user, comp(E:zapcore.Core), comp(E:uint8), comp(E:uintptr), stacktrace.Formatter.nonEmpty, fields(zapcore.Field), fields(zap.invalidPair), swSrc, swAny
 //@   ensures elems_frame(type(zapcore.Core), zero(type([]zapcore.Core)))
 //@   ensures elems_frame(type(uint8), zero(type([]uint8)))
 //@   track L = call (*zap.SugaredLogger).log
@@ -748,7 +774,7 @@ package zap
 //@   flags nopanic propagates-panics
 //@   requires s != nil && s.base != nil && s.base.core != nil && s.base.clock != nil && s.base.addStack != nil && s.base.errorOutput != nil
 //@   requires 0 <= s.base.callerSkip && s.base.callerSkip <= 1 << 20
-//@   modifies $user, comp(E:zapcore.Core), comp(E:uint8), comp(E:uintptr), stacktrace.Formatter.nonEmpty, fields(zapcore.Field), fields(zap.invalidPair)
+//@   modifies $user, comp(E:zapcore.Core), comp(E:uint8), comp(E:uintptr), stacktrace.Formatter.nonEmpty, fields(zapcore.Field), fields(zap.invalidPair), swSrc, swAny
 //@   ensures elems_frame(type(zapcore.Core), zero(type([]zapcore.Core)))
 //@   ensures elems_frame(type(uint8), zero(type([]uint8)))
 //@   track L = call (*zap.SugaredLogger).log
@@ -759,7 +785,7 @@ package zap
 //@   flags nopanic propagates-panics
 //@   requires s != nil && s.base != nil && s.base.core != nil && s.base.clock != nil && s.base.addStack != nil && s.base.errorOutput != nil
 //@   requires 0 <= s.base.callerSkip && s.base.callerSkip <= 1 << 20
-//@   modifies $user, comp(E:zapcore.Core), comp(E:uint8), comp(E:uintptr), stacktrace.Formatter.nonEmpty, fields(zapcore.Field), fields(zap.invalidPair)
+//@   modifies $user, comp(E:zapcore.Core), comp(E:uint8), comp(E:uintptr), stacktrace.Formatter.nonEmpty, fields(zapcore.Field), fields(zap.invalidPair), swSrc, swAny
 //@   ensures elems_frame(type(zapcore.Core), zero(type([]zapcore.Core)))
 //@   ensures elems_frame(type(uint8), zero(type([]uint8)))
 //@   track L = call (*zap.SugaredLogger).logln
